@@ -20,7 +20,9 @@ EXTENDS Integers, Sequences, TLC, IOUtils
 
 Scen == {s \in [kind : {"ins", "upd", "del", "sel"}, mode : {"auto", "explicit"}, reg : {"ok", "fail", "neterr"},
                failAt : 0..8, p2 : {"commit", "rollback"}, how : {"once", "dup", "retry", "restart", "other"},
-               ver : {"8.0.28", "8.0.30"}, reuse : {0, 1, 2, 3}] :
+               ver : {"8.0.28", "8.0.30"}, reuse : {0, 1, 2, 3}, ca : {0, 1}] :
+           \* ca = 1: the application ignores the error of the failed business statement and calls tx.Commit() all the same
+           /\ s.ca = 1 => (s.mode = "explicit" /\ s.failAt = 2 /\ s.how = "once" /\ s.reuse = 0 /\ s.reg = "ok")
            /\ s.reg # "ok" => (s.failAt = 0 /\ s.p2 = "rollback" /\ s.how = "once" /\ s.reuse = 0)
            /\ s.how = "other" => s.ver = "8.0.30"
            /\ s.failAt >= 5 => s.how = "once"
